@@ -98,10 +98,10 @@ def in_known_class(f, cfg, steps):
     for rx in f.get("requires", []):
         if not re.search(rx, cfg):
             return False
-    rh = f.get("requires_history")
-    if rh == "code>=767" and not any(st[0] in "durp" and st[1] >= 767 for st in steps):
+    m = re.match(r"(ticks|events)>=(\d+)$", f.get("requires_history") or "")
+    if m and m.group(1) == "ticks" and sum(st[1] for st in steps if st[0] == "t") < int(m.group(2)):
         return False
-    if rh == "ticks>=65535" and sum(st[1] for st in steps if st[0] == "t") < 65535:
+    if m and m.group(1) == "events" and sum(1 for st in steps if st[0] != "t") < int(m.group(2)):
         return False
     return True
 
@@ -163,11 +163,20 @@ def run_batch(batch, wd, name, watchdog_ms, stack_kb):
         if rc == 86 and os.path.exists(of + ".hang"):
             h = json.load(open(of + ".hang"))
             res = {"r": "hang", "step": h["step"], "msg": "step exceeded the %d ms watchdog (%d ms)" % (watchdog_ms, h["ms"])}
+            if watchdog_ms <= 2000:
+                # the watchdog is wall clock and the machine is shared: a hang counts only if the pair, run alone with a
+                # ten times larger limit, hangs again (a slow step under load, e.g. symbolising a panic backtrace, does not)
+                again = run_batch([{"id": j["id"], "cfg": j["cfg"], "scripts": [s]}], wd, name + "_confirm", watchdog_ms * 10, stack_kb)
+                res = dict(again[0])
+                if res["r"] == "hang":
+                    res["msg"] = "step exceeded the %d ms watchdog twice (second run alone: %s)" % (watchdog_ms, res["msg"])
         elif "overflowed its stack" in so:
             res = {"r": "stack-overflow", "msg": "stack overflow on the %d KiB processing thread" % stack_kb}
         else:
             res = {"r": "abort", "msg": "worker died rc=%s: %s" % (rc, so[-300:])}
-        res.update({"e": "done", "j": j["id"], "s": s["id"], "cls": s.get("cls"), "nt": 0, "nsteps": 0, "max_us": 0, "outs": 0})
+        res.update({"e": "done", "j": j["id"], "s": s["id"], "cls": s.get("cls")})
+        for k in ("nt", "nsteps", "max_us", "outs"):
+            res.setdefault(k, 0)
         results.append(res)
         # continue after the culprit
         rest = []
@@ -356,8 +365,29 @@ def targeted():
     # found by this check
     T.append(("multi-rpt-any", "(defsrc a)\n(deflayer l0 (multi rpt-any))\n", [["d", A], ["t", 2], ["u", A], ["t", 2], ["d", A], ["t", 2]]))
     T.append(("tde-empty", "(defsrc a)\n(deflayer l0 (tap-dance-eager 50 ()))\n", [["d", A], ["t", 2]]))
-    # suspected: KEY_MAX (767) as an input coordinate
-    T.append(("input-767", "(defcfg process-unmapped-keys yes)\n(defsrc a)\n(deflayer l0 a)\n", [["d", 767], ["t", 2]]))
+    # suspected: more than 16 virtual-key events in the chords-v2 queue within one tick
+    cfg = ("(defcfg concurrent-tap-hold yes)\n(defsrc a b)\n(deflayer l0 a b)\n(defvirtualkeys v0 x v1 y)\n"
+           "(defchordsv2 (a b) x 50 all-released ())\n")
+    T.append(("chv2-17-vkey-events-one-tick", cfg, [["fk", i % 2, "tap"] for i in range(9)] + [["t", 3]]))
+    # the same from one key press: nine virtual-key taps in one multi
+    cfg = ("(defcfg concurrent-tap-hold yes)\n(defsrc a b)\n(deflayer l0 (multi %s) b)\n(defvirtualkeys v0 x v1 y)\n"
+           "(defchordsv2 (b c) x 50 all-released ())\n" % " ".join("(on-press tap-vkey v%d)" % (i % 2) for i in range(9)))
+    T.append(("chv2-9-vkey-taps-in-one-multi", cfg, [["d", A], ["t", 5], ["u", A], ["t", 5]]))
+    # every key code the parser can map (0..766), each with press, repeat, release and tap: plain, with chords v2, and with
+    # overrides + one-shot + tap-hold on some keys
+    sweep = []
+    for c in sorted(int(c) for c in cfgdesc.keytable()["codes"].keys() if int(c) < 767):
+        sweep += [["d", c], ["r", c], ["t", 1], ["u", c], ["p", c], ["t", 1]]
+    sweep.append(["t", 50])
+    T.append(("all-codes-plain", "(defcfg process-unmapped-keys yes)\n(defsrc a)\n(deflayer l0 b)\n", sweep))
+    T.append(("all-codes-chv2", "(defcfg process-unmapped-keys yes concurrent-tap-hold yes)\n(defsrc a b)\n(deflayer l0 a b)\n"
+              "(defchordsv2 (a b) x 50 all-released () (c d) (one-shot 50 lsft) 50 first-release ())\n", sweep))
+    T.append(("all-codes-features", "(defcfg process-unmapped-keys yes block-unmapped-keys yes)\n(defsrc a b c d)\n"
+              "(deflayer l0 (one-shot 50 lsft) (tap-hold 20 20 x y) (tap-dance 20 (x y)) (caps-word 100))\n"
+              "(defoverrides (lsft a) (b))\n", sweep))
+    # (KEY_MAX = 767 as an input coordinate indexes past the 767-wide layer row, but no configuration can map it -
+    # process-unmapped-keys maps 0..766 and deflocalkeys refuses 767 - and every OS layer filters on MAPPED_KEYS: outside
+    # the interface, see the assumption "input codes restricted to the configuration's mapped keys")
     return T
 
 
